@@ -48,7 +48,7 @@ fn call(b: Builder, m: &mut Model, slot: usize, c: usize) -> Builder {
     // seeds >= 1000: empty text / empty blob; seeds >= 2000: custom tags that share one type number
     let empty = (1000..2000).contains(&c);
     // seeds 5000..5003: contents as real boot loaders and firmware produce them (well-known addresses, names, layouts)
-    let real = (5000..5004).contains(&c);
+    let real = (5000..5010).contains(&c);
     let rv = c.saturating_sub(5000);
     let text: String = if real { ["root=/dev/sda1 ro quiet", "GRUB 2.06", "/boot/initrd.img", "console=ttyS0,115200"][(rv + slot) % 4].to_string() } else if empty { String::new() } else { (0..(3 + 5 * (c % 1000))).map(|i| (b'a' + ((i + slot) % 26) as u8) as char).collect() };
     let mut blob: Vec<u8> = if empty { vec![] } else { (0..(2 + 7 * (c % 1000))).map(|i| marker(i, slot + 50)).collect() };
@@ -80,12 +80,13 @@ fn call(b: Builder, m: &mut Model, slot: usize, c: usize) -> Builder {
             b.bootloader(t)
         }
         2 => {
-            let t = ModuleTag::new(0x1000 * (s + 1), 0x1000 * (s + 2), &text);
+            // realistic modules lie at 16..17 MiB or 1..2 MiB
+            let t = if real { if rv % 2 == 0 { ModuleTag::new(0x100_0000, 0x110_0000, &text) } else { ModuleTag::new(0x10_0000, 0x18_0000, &text) } } else { ModuleTag::new(0x1000 * (s + 1), 0x1000 * (s + 2), &text) };
             m.put(slot, supplied(&*t));
             b.add_module(t)
         }
         3 => {
-            let t = if real { BasicMemoryInfoTag::new([640, 639, 636, 0][rv], [130048, 0x7FEE0, 3144704, 0][rv]) } else if look { BasicMemoryInfoTag::new(0, 8) } else { BasicMemoryInfoTag::new(640 + s, 0x1F000 + s) };
+            let t = if real { BasicMemoryInfoTag::new([640, 639, 636, 0][rv % 4], [130048, 0x7FEE0, 3144704, 0][rv % 4]) } else if look { BasicMemoryInfoTag::new(0, 8) } else { BasicMemoryInfoTag::new(640 + s, 0x1F000 + s) };
             m.put(slot, supplied(&t));
             b.meminfo(t)
         }
@@ -102,9 +103,15 @@ fn call(b: Builder, m: &mut Model, slot: usize, c: usize) -> Builder {
                     0 => pc.to_vec(),
                     1 => pc[1..].to_vec(),
                     2 => vec![pc[3], pc[4]],
-                    _ => vec![pc[3], pc[0], pc[5], pc[1]],
+                    3 => vec![pc[3], pc[0], pc[5], pc[1]],
+                    // variants 4..=9: the ranges the realistic modules occupy (1..2 MiB, 16..17 MiB) reported with each
+                    // area type in turn (available, reserved, ACPI, NVS, defective, a custom number)
+                    k => {
+                        let t = [1u32, 2, 3, 4, 5, 0x1000][k - 4];
+                        vec![(0, 0x10_0000, 1), (0x10_0000, 0xF0_0000, t), (0x100_0000, 0x10_0000, t), (0x110_0000, 0x100_0000, 1)]
+                    }
                 };
-                sel.iter().map(|&(b, l, t)| MemoryArea::new(b, l, if t == 1 { MemoryAreaType::Available } else { MemoryAreaType::Reserved })).collect()
+                sel.iter().map(|&(b, l, t)| MemoryArea::new(b, l, match t { 1 => MemoryAreaType::Available, 2 => MemoryAreaType::Reserved, 3 => MemoryAreaType::AcpiAvailable, 4 => MemoryAreaType::ReservedHibernate, 5 => MemoryAreaType::Defective, x => MemoryAreaType::Custom(x) })).collect()
             } else if look { (0..=(c - 3000) % 3).map(|_| MemoryArea::new(0x8_0000_0000, 0x8_0000_0000, MemoryAreaType::Custom(0))).collect() } else { (0..=c).map(|i| MemoryArea::new(0x1000 * i as u64, 0x800 + i as u64, MemoryAreaType::Available)).collect() };
             let t = MemoryMapTag::new(&areas);
             m.put(slot, supplied(&*t));
@@ -187,7 +194,8 @@ fn call(b: Builder, m: &mut Model, slot: usize, c: usize) -> Builder {
             b.image_load_addr(t)
         }
         _ => {
-            let typ = if c >= 2000 { 0x2000 } else { 0x1337 + s };
+            // seeds 6000..: custom types whose low half-word is a specified tag number
+            let typ = if (6000..6008).contains(&c) { [0x0001_0003u32, 0x8000_0000, 0xABCD_0015, 0x0001_0000, 0xFFFF_0001, 0x0100_0008, 0x0002_0011, 0xFFFF_FFFF][c - 6000] } else if c >= 2000 { 0x2000 } else { 0x1337 + s };
             let t = new_boxed::<DynSizedStructure<TagHeader>>(TagHeader::new(TagType::Custom(typ), 0), &[&blob]);
             m.put(slot, supplied(&*t));
             b.add_custom_tag(t)
@@ -435,12 +443,12 @@ fn run(ctx: &mut Ctx) {
         }
     }
     // realistic contents and relations between tags: what one tag says must not change what happens to another
-    ctx.bound("realistic_contents", "memory maps as a PC firmware reports them (4 variants: complete, without the low area, from 1 MiB, unsorted), typical lower/upper memory values, loader names and command lines: each alone, before and after every other builder call, and all of them together with each single call left out");
+    ctx.bound("realistic_contents", "memory maps as a PC firmware reports them (4 variants: complete, without the low area, from 1 MiB, unsorted) and 6 maps that report the modules' ranges with each area type in turn, modules at 1 MiB and at 16 MiB (map before and after the modules), typical lower/upper memory values, loader names and command lines: each alone, before and after every other builder call, and all of them together with each single call left out");
     {
         let dict: [usize; 5] = [5, 3, 0, 1, 2];
         let mut progs: Vec<Vec<(usize, usize)>> = vec![];
         for &d in &dict {
-            for v in 0..4usize {
+            for v in 0..(if d == 5 { 10usize } else { 4 }) {
                 progs.push(vec![(d, 5000 + v)]);
                 for s in 0..NSLOTS {
                     if s != d {
@@ -448,6 +456,14 @@ fn run(ctx: &mut Ctx) {
                         progs.push(vec![(s, 1), (d, 5000 + v)]);
                     }
                 }
+            }
+        }
+        for mv in 0..10usize {
+            for modv in 0..2usize {
+                progs.push(vec![(5, 5000 + mv), (2, 5000 + modv)]);
+                progs.push(vec![(2, 5000 + modv), (5, 5000 + mv)]);
+                progs.push(vec![(5, 5000 + mv), (2, 5000 + modv), (2, 5001 - modv)]);
+                progs.push(vec![(2, 5000 + modv), (5, 5000 + mv), (2, 5001 - modv)]);
             }
         }
         for v in 0..4usize {
@@ -459,6 +475,17 @@ fn run(ctx: &mut Ctx) {
         }
         for prog in progs {
             let describe = || J::obj().set("part", "realistic").set("calls", J::Arr(prog.iter().map(|(s, c)| J::from(format!("{}#{}", SLOT_NAMES[*s], c))).collect()));
+            ctx.leaf(describe, |ctx| {
+                ctx.state_direct();
+                ctx.nontrivial();
+                run_program(ctx, &prog, &|| format!("calls {:?}", prog));
+            });
+        }
+    }
+    ctx.bound("custom_type_numbers", "custom tags whose type number has a specified tag number (0..=21) in its low half-word and other bits above it (8 values incl. 0x00010003, 0x80000000, 0xFFFFFFFF): alone, two of them, and between other tags");
+    for v in 0..8usize {
+        for prog in [vec![(21usize, 6000 + v)], vec![(21, 6000 + v), (21, 6000 + (v + 1) % 8)], vec![(2, 1), (21, 6000 + v), (0, 1)]] {
+            let describe = || J::obj().set("part", "custom_type_numbers").set("calls", J::Arr(prog.iter().map(|(s, c)| J::from(format!("{}#{}", SLOT_NAMES[*s], c))).collect()));
             ctx.leaf(describe, |ctx| {
                 ctx.state_direct();
                 ctx.nontrivial();
